@@ -130,7 +130,16 @@ func (p *Prog) SSACallSites(fn *ssa.Function) []ssa.CallInstruction {
 			})
 		}
 	}
-	return p.ssaSites[fn]
+	out := p.ssaSites[fn]
+	// calls of the instantiations of a generic function
+	if fn.Origin() == nil && fn.TypeParams().Len() > 0 {
+		for callee, sites := range p.ssaSites {
+			if callee.Origin() == fn {
+				out = append(out, sites...)
+			}
+		}
+	}
+	return out
 }
 
 func goEnv(o LoadOpts) []string {
@@ -241,6 +250,8 @@ func Load(o LoadOpts) (*Prog, error) {
 		}
 	}
 	sort.Slice(p.Funcs, func(i, j int) bool { return p.Funcs[i].Name() < p.Funcs[j].Name() })
+	computeExitHelpers(p)
+	theProg = p
 	return p, nil
 }
 
